@@ -4,7 +4,7 @@ from __future__ import annotations
 
 from typing import TYPE_CHECKING
 
-from xknx.knxip import KNXIPFrame, TunnellingAck, TunnellingRequest
+from xknx.knxip import KNXIPBody, KNXIPFrame, TunnellingAck, TunnellingRequest
 
 from .request_response import RequestResponse
 
@@ -37,3 +37,13 @@ class Tunnelling(RequestResponse[TunnellingAck]):
     def _create_knxipframe(self) -> KNXIPFrame:
         """Create KNX/IP Frame object to be sent to device."""
         return KNXIPFrame.init_from_body(self.tunnelling_request)
+
+    def _answers_request(self, body: KNXIPBody) -> bool:
+        """Accept only the TunnellingAck for the channel and sequence counter of this request."""
+        if isinstance(body, TunnellingAck):
+            return (
+                body.communication_channel_id
+                == self.tunnelling_request.communication_channel_id
+                and body.sequence_counter == self.tunnelling_request.sequence_counter
+            )
+        return True
